@@ -41,9 +41,25 @@ func (r *roleCtx) structOf(pkg *ssa.Package, tn string) (*types.Named, *types.St
 	return n, st
 }
 
-func hasField(st *types.Struct, name string) bool {
+// flatFields: the fields of st with the fields of its grouping structs (transparentStruct) in place of those.
+func flatFields(st *types.Struct, depth int) []*types.Var {
+	var out []*types.Var
 	for i := 0; i < st.NumFields(); i++ {
-		if st.Field(i).Name() == name {
+		f := st.Field(i)
+		if depth < 2 && transparentStruct(f.Type()) {
+			if _, mapped := nestedOwner[rawTypeName(f.Type())]; mapped {
+				out = append(out, flatFields(f.Type().Underlying().(*types.Struct), depth+1)...)
+				continue
+			}
+		}
+		out = append(out, f)
+	}
+	return out
+}
+
+func hasField(st *types.Struct, name string) bool {
+	for _, f := range flatFields(st, 0) {
+		if f.Name() == name {
 			return true
 		}
 	}
@@ -133,8 +149,7 @@ func (r *roleCtx) setBy(pkg *ssa.Package, recvType, fieldType, m string) string 
 // uniqueByType: the only field of st (not in taken) whose type satisfies pred.
 func uniqueByType(st *types.Struct, taken map[string]bool, pred func(types.Type) bool) string {
 	found, n := "", 0
-	for i := 0; i < st.NumFields(); i++ {
-		f := st.Field(i)
+	for _, f := range flatFields(st, 0) {
 		if taken[f.Name()] || f.Embedded() {
 			continue
 		}
@@ -178,6 +193,58 @@ func isMutexT(t types.Type) bool { return isNamed(t, "sync", "Mutex") || isNamed
 func ResolveRoles(p *Prog) {
 	fieldAlias = map[string]string{}
 	funcAlias = map[*ssa.Function]string{}
+	// grouping structs: fields of an unexported method-less (or anonymous) struct used by value inside one struct of the
+	// repository count as fields of that struct
+	nestedOwner = map[string]string{}
+	{
+		owners := map[string]map[string]bool{}
+		var visit func(owner string, st *types.Struct, depth int)
+		visit = func(owner string, st *types.Struct, depth int) {
+			for i := 0; i < st.NumFields(); i++ {
+				ft := st.Field(i).Type()
+				if depth < 2 && transparentStruct(ft) {
+					k := rawTypeName(ft)
+					if owners[k] == nil {
+						owners[k] = map[string]bool{}
+					}
+					owners[k][owner] = true
+					visit(owner, ft.Underlying().(*types.Struct), depth+1)
+				}
+			}
+		}
+		for _, pkg := range []*ssa.Package{p.Fpgo, p.Network, p.Worker} {
+			if pkg == nil {
+				continue
+			}
+			for _, m := range pkg.Members {
+				tn, ok := m.(*ssa.Type)
+				if !ok {
+					continue
+				}
+				named, ok := tn.Type().(*types.Named)
+				if !ok {
+					continue
+				}
+				st, ok := named.Underlying().(*types.Struct)
+				if !ok || transparentStruct(named) && !named.Obj().Exported() && false {
+					continue
+				}
+				visit(named.Obj().Name(), st, 0)
+			}
+		}
+		for k, os := range owners {
+			// a grouping struct is itself visited as an owner of its nested groups; the outermost non-group owner wins
+			var real []string
+			for o := range os {
+				if _, isGroup := owners[o]; !isGroup {
+					real = append(real, o)
+				}
+			}
+			if len(real) == 1 {
+				nestedOwner[k] = real[0]
+			}
+		}
+	}
 	r := &roleCtx{p}
 	type spec struct {
 		canon string
@@ -478,9 +545,9 @@ func ResolveRoles(p *Prog) {
 }
 
 func fieldByName(st *types.Struct, n string) *types.Var {
-	for i := 0; i < st.NumFields(); i++ {
-		if st.Field(i).Name() == n {
-			return st.Field(i)
+	for _, f := range flatFields(st, 0) {
+		if f.Name() == n {
+			return f
 		}
 	}
 	return nil
